@@ -390,6 +390,23 @@ func checkC03(c *Check) {
 	})
 
 	phase("cte corpus + mutants")
+	// the document grammar model: token sequences (separators, comments, markers, record types)
+	docLen := 5
+	if thorough {
+		docLen = 6
+	}
+	gst := runCTEDoc(c, docLen, func(text []byte) {
+		cfg := configuration.New()
+		if c03FromCTE(c, "grammar model text", text, cfg) {
+			atomic.AddInt64(&accCTE, 1)
+			c.Count("cte"+string(text), true)
+		}
+	})
+	c.Extra["grammar_conformance"] = gst
+	for _, sm := range gst.Samples {
+		c.Note("CTEDoc.tla vs decoder: %s", sm)
+	}
+	phase("grammar model texts")
 	// sweeps over the gaps between the grammars: built as events, encoded to CBE by the real
 	// encoder (no rules in front, so that the CBE decoder with rules is what accepts or not)
 	var wg sync.WaitGroup
